@@ -20,6 +20,13 @@ def gen_c06_history(rnd):
             else:
                 reqs.append({"kind": "convert", "input": s, "context": rnd.choice(["Normal", "Normal", "ForeignWord", "Numeral"])})
             nconv += 1
+        elif k < 0.6:
+            # confirm the last conversion and convert the same input again at once (same and another context): the new counts must show
+            convs_ = [q for q in reqs if q["kind"] in ("convert", "proper")]
+            reqs.append({"kind": "confirm", "session": nconv - 1, "cid": rnd.choice(["0", "1", "1", "2"])})
+            reqs.append(dict(convs_[-1]))
+            reqs.append({"kind": "convert", "input": convs_[-1]["input"], "context": rnd.choice(["Normal", "ForeignWord", "Numeral"])})
+            nconv += 2
         else:
             reqs.append({"kind": "confirm", "session": rnd.choice([rnd.randrange(nconv)] * 6 + [None]), "cid": rnd.choice(["0", "0", "0", "0", "1", "1", "1", "2", "3", "50", "x", "01", "+0", "+1", "00", " 0", "0 ", "1e0", "０"])})
     if rnd.random() < 0.6:
@@ -52,6 +59,7 @@ def predicate(res, hr):
     live = {}       # session number -> (context, texts)
     prev = {(c["kind"], w): (n, t) for c, w, n, t in hr.init_freq_abs}
     nt = False
+    last_dmp = None
     rep = {"base": hr.base, "requests": hr.requests}
     for (ev, obs), rq, dmp in zip(hr.events, [r for r in hr.requests if r["kind"] != "malformed"], hr.dumps):
         if dmp is None:
@@ -84,7 +92,7 @@ def predicate(res, hr):
                         res.violation(f"the count of {w!r} went from {a[0]} to {b[0]} on one confirmation", rep)
                     if c != ctx:
                         res.violation(f"a confirmation in context {ctx} changed a count of context {c}", rep)
-                    surfaces = {e["stem"] for e in hr.base["std"] + hr.base["anc"]}
+                    surfaces = {e["stem"] for e in hr.base["std"] + hr.base["anc"]} | {l.split("\t")[1] for l in (last_dmp or {}).get("user_entries", []) if l.count("\t") >= 2}   # a compound learned EARLIER is a word of its own now
                     affixes = [e for e in hr.base["anc"] + hr.base["std"] if isinstance(e["speech"], dict) and "Affix" in e["speech"]]
                     compounds = {a["stem"] + e["stem"] for a in affixes for e in hr.base["std"]} | {e["stem"] + a["stem"] for a in affixes for e in hr.base["std"]}
                     if w not in surfaces and w in compounds:
@@ -112,6 +120,7 @@ def predicate(res, hr):
                     nt = True
             live.pop(sid, None)
         prev = cur
+        last_dmp = dmp
     return nt
 
 
